@@ -214,6 +214,23 @@ fn strip_insignificant_leading_zero_and_plus(s: &str) -> String {
 /// caller passing genuinely unexpected text gets a defined, non-panicking
 /// answer either way.
 pub fn format_number_jq_compat(raw: &[u8]) -> String {
+    format_number_jq_compat_with(raw, false)
+}
+
+/// [`format_number_jq_compat`] for size-bounded value previews
+/// (`dump_truncated` via `stream::stream_owned_value_json_jq`): identical
+/// except that a finite literal rendered in scientific notation keeps at most
+/// `MAX_RENDERED_MANTISSA_DIGITS` digits after the leading one, so a
+/// document-controlled mantissa cannot make an error-message preview cost
+/// more than the preview is allowed to show. Real output
+/// ([`format_number_jq_compat`]) never truncates a finite literal: dropping
+/// given digits can move the printed text across a rounding boundary, i.e.
+/// make it parse back to a different `f64` than the literal itself.
+pub(crate) fn format_number_jq_compat_preview(raw: &[u8]) -> String {
+    format_number_jq_compat_with(raw, true)
+}
+
+fn format_number_jq_compat_with(raw: &[u8], cap_scientific_mantissa: bool) -> String {
     let s = match core::str::from_utf8(raw) {
         Ok(s) => s,
         Err(_) => return String::from_utf8_lossy(raw).into_owned(),
@@ -453,7 +470,18 @@ pub fn format_number_jq_compat(raw: &[u8]) -> String {
     // pow()-underflowed zero -- see git history); now that this path is
     // string-based too, subnormal and normal magnitudes take the identical
     // call with no separate handling needed (code review, #1206).
-    assemble_scientific(sign, &mantissa_str, shifted_exp)
+    //
+    // Real output renders every given digit here too (like the two plain
+    // branches above): the capped `mantissa_str` is only acceptable for a
+    // bounded preview. A literal with more than
+    // `MAX_RENDERED_MANTISSA_DIGITS + 1` significant digits that sits within
+    // the dropped digits of a rounding midpoint would otherwise be printed as
+    // text that parses back to the *neighbouring* `f64`.
+    if cap_scientific_mantissa {
+        return assemble_scientific(sign, &mantissa_str, shifted_exp);
+    }
+    let full_mantissa_str = full_mantissa_if_capped(s, exp_pos, &mantissa_str, digit_count);
+    assemble_scientific(sign, &full_mantissa_str, shifted_exp)
 }
 
 /// jq mode's bare `Float` display: no forced decimal point, matching real
